@@ -100,6 +100,8 @@ class Overlay:
     kind 'dep:<a>,<b>'   : additionally path-replace third-party crates by the behavioural
                            models in /verif/models/<name> (E2-dep)
     kind 'cli'           : the E2-cli overlay (main.rs/bail.rs/pipecheck.rs against mstd)
+    kind 'e1r'           : as e1, with `debug-assertions = false` in [profile.dev]: the semantics of the
+                           release build users run (debug_assert! and cfg!(debug_assertions) compiled out)
     """
 
     def __init__(self, kind, scratch):
@@ -136,6 +138,10 @@ class Overlay:
         txt = re.sub(r"\[dev-dependencies\.criterion\][^\[]*", "", txt)
         txt = re.sub(r"\[\[bench\]\][^\[]*", "", txt)
         # kani cfg is only known inside overlays; silence check-cfg noise
+        if self.kind == "e1r":
+            txt = txt.replace('[profile.dev]\n', '[profile.dev]\ndebug-assertions = false\n', 1)
+            if "debug-assertions = false" not in txt:
+                txt += '\n[profile.dev]\ndebug-assertions = false\n'
         if self.kind.startswith("dep:"):
             self.models = self.kind[4:].split(",")
             txt += "\n[patch.crates-io]\n"
@@ -208,8 +214,9 @@ def parse_kani_log(text):
 class Harness:
     def __init__(self, name, module, overlay="e1", desc="", bounds="", functions=(), covers=(),
                  flags=(), timeout=600, mem_gb=16, tier="quick", props=(), assumptions=(),
-                 replay="playback", known=None, crate="lib", thorough_props=(), best_effort=False):
-        self.name = name            # function name of the #[kani::proof]
+                 replay="playback", known=None, crate="lib", thorough_props=(), best_effort=False, fn=None):
+        self.name = name            # registry name (= function name of the #[kani::proof] unless fn is given)
+        self.fn = fn or name        # function name of the #[kani::proof]
         self.module = module        # rust module path that contains `verif_kani` (e.g. "msgpack")
         self.overlay = overlay
         self.desc = desc
@@ -233,7 +240,7 @@ class Harness:
     @property
     def qualified(self):
         m = "verif_dep" if self.overlay.startswith("dep:") else "verif_kani"
-        return "%s::%s::%s" % (self.module, m, self.name) if self.module else "%s::%s" % (m, self.name)
+        return "%s::%s::%s" % (self.module, m, self.fn) if self.module else "%s::%s" % (m, self.fn)
 
 
 def kani_cmd(h, target_dir, extra=()):
@@ -399,7 +406,7 @@ def playback(h, overlay, target_dir, logdir, replay_path):
             cmd += ["--bin", "xt"] if h.crate == "bin" else ["--lib"]
             if profile == "release":
                 cmd += ["--release"]
-            cmd += ["--", "kani_concrete_playback_" + h.name]
+            cmd += ["--", "kani_concrete_playback_" + h.fn]
             env = dict(ENV)
             env["CARGO_TARGET_DIR"] = target_dir + "-pb"
             lf = os.path.join(logdir, "%s.native-%s.log" % (h.name, profile))
